@@ -334,3 +334,9 @@ package core
 // a plain io.Writer sink (pipe, buffer): writing changes nothing the proofs talk about
 //@ extern (io.Writer).Write(p)
 //@   trusted
+
+// Marshalling the values this code base marshals (maps and structs built from decoded JSON, strings and numbers that
+// are finite) does not fail. Listed assumption: encoding/json fails only on channels, functions, cycles and NaN/Inf.
+//@ extern encoding/json.Marshal(v)
+//@   trusted
+//@   ensures res1 == nil
